@@ -173,26 +173,25 @@ def exCls : CTy :=
 example : exCls.wf = true ∧ exCls.noBf = true ∧ clsAligned exCls = true
     ∧ c2mClassify exCls = some [.int, .int] := by decide +kernel
 
-/-- `blk_kind_consistent`: for an aggregate that is classified as the psABI does, and as long as
-c2mir's register counters do not exceed the number of registers, `get_blk_type` /
-`process_aggregate_arg` select exactly the registers the psABI assigns (BLK = memory), and the
-counters advance alike. -/
-theorem blk_kind_consistent (u : Bool) (ms : Mems) (ai : ArgInfo)
-    (hok : ClassOK sysvLay (.agg u ms)) (hI : ai.nI ≤ 6) (hF : ai.nF ≤ 8) :
-    (c2mArg ai (.agg u ms)).1 = (sysvArg sysvLay ⟨ai.nI, ai.nF⟩ (.agg u ms)).1
-    ∧ (c2mArg ai (.agg u ms)).2.nI = (sysvArg sysvLay ⟨ai.nI, ai.nF⟩ (.agg u ms)).2.nI
-    ∧ (c2mArg ai (.agg u ms)).2.nF = (sysvArg sysvLay ⟨ai.nI, ai.nF⟩ (.agg u ms)).2.nF :=
-  arg_agg sysvLay u ms ai hok hI hF
+/-- `blk_kind_consistent`: for an aggregate that is classified as the psABI does, `get_blk_type` /
+`process_aggregate_arg` select exactly the registers the psABI assigns (BLK = memory) — for any
+values of c2mir's register counters (they also count scalars passed on the stack; `Sat`: the psABI's
+counters are c2mir's, saturated at 6 / 8) — and the counters stay related.
+(Before repo commit c8901359 this needed counters ≤ 6 / ≤ 8.) -/
+theorem blk_kind_consistent (u : Bool) (ms : Mems) (ai : ArgInfo) (av : Avail)
+    (hok : ClassOK sysvLay (.agg u ms)) (hs : Sat ai av) :
+    (c2mArg ai (.agg u ms)).1 = (sysvArg sysvLay av (.agg u ms)).1
+    ∧ Sat (c2mArg ai (.agg u ms)).2 (sysvArg sysvLay av (.agg u ms)).2 :=
+  arg_agg sysvLay u ms ai av hok hs
 
 /-- `proto_meets_sysv_partial`: a whole prototype is passed and returned as the psABI says when
-every aggregate in it is classified correctly (`ClassOK`) and c2mir reaches every aggregate
-parameter with counters ≤ 6 / ≤ 8 (`countersOk`, decidable, printed by `mirdrv_c08 proto`). -/
+every aggregate in it is classified correctly (`ClassOK`).  The only remaining hypothesis is the
+classification of the aggregates (`class_meets_sysv_partial` + the two open classification findings). -/
 theorem proto_meets_sysv_partial (ret : Option CTy) (ps : List CTy)
     (hret : ∀ t, ret = some t → isParamTy t = true ∧ (isAgg t = true → ClassOK sysvLay t))
-    (hps : ∀ t ∈ ps, isParamTy t = true ∧ (isAgg t = true → ClassOK sysvLay t))
-    (hc : countersOk { nI := if ret.map c2mRet = some .sret then 1 else 0 } ps = true) :
+    (hps : ∀ t ∈ ps, isParamTy t = true ∧ (isAgg t = true → ClassOK sysvLay t)) :
     c2mProto ret ps = sysvProto sysvLay ret ps :=
-  proto_eq sysvLay ret ps hret hps hc
+  proto_eq sysvLay ret ps hret hps
 
 /-- the hypotheses are satisfiable: `struct {long a; double d;} f (long, struct {double d;}, float)` -/
 def exSD : CTy := .agg false (.cons .plain (.sc .double) .nil)
@@ -202,8 +201,7 @@ example : ClassOK sysvLay exSD := by
   intro cs h
   have : c2mClassify exSD = some [.sse] := by decide +kernel
   rw [this] at h; cases h; rfl
-example : countersOk {} [.sc .long, exSD, .sc .float] = true
-    ∧ c2mProto (some exLD) [.sc .long, exSD, .sc .float]
+example : c2mProto (some exLD) [.sc .long, exSD, .sc .float]
       = (some (.regs [.int, .sse]), [.regs [.int], .regs [.sse], .regs [.sse]]) := by decide +kernel
 
 /-- `struct {double d; unsigned :0;}`: same layout on both sides, but c2mir classifies the
@@ -215,11 +213,11 @@ theorem exZeroWidth_classes :
     ∧ c2mClassify exZeroWidth = some [.int] ∧ sysvClass sysvLay exZeroWidth = [.sse] := by
   decide +kernel
 
-/- FALSE today:  theorem proto_meets_sysv_full: c2mProto ret ps = sysvProto sysvLay ret ps
-   (even when every aggregate is classified correctly): the register counter is not saturated. -/
-theorem proto_counter_false :
+/-- regression for finding C08-36 (fixed by repo commit c8901359): after seven `long` parameters
+`struct {double;}` still travels in xmm0, as the psABI says -/
+theorem proto_counter_fixed :
     let l := CTy.sc .long; let sd := CTy.agg false (.cons .plain (.sc .double) .nil)
-    (c2mProto none [l, l, l, l, l, l, l, sd]).2.getLast? = some .stack
+    (c2mProto none [l, l, l, l, l, l, l, sd]).2.getLast? = some (.regs [.sse])
     ∧ (sysvProto sysvLay none [l, l, l, l, l, l, l, sd]).2.getLast? = some (.regs [.sse]) := by
   decide +kernel
 
